@@ -36,6 +36,7 @@ func init() {
 // ------------------------------------------------------------------------------------------ C18
 
 func runC18(c *Ctx, r *Report) {
+	defer round8(c, r, "C18")
 	l := c.L
 	defer c18r7(c, r)
 	defer c18r8(c, r)
@@ -472,6 +473,7 @@ func runC18(c *Ctx, r *Report) {
 // ------------------------------------------------------------------------------------------ C19
 
 func runC19(c *Ctx, r *Report) {
+	defer round8(c, r, "C19")
 	l := c.L
 	pw := l.Fn("fzf", "parseWalkerOpts")
 	rf := l.Fn("fzf", "(*Reader).readFiles")
@@ -739,6 +741,7 @@ func runC19(c *Ctx, r *Report) {
 // ------------------------------------------------------------------------------------------ C20
 
 func runC20(c *Ctx, r *Report) {
+	defer round8(c, r, "C20")
 	l := c.L
 	defer func() {
 		c09r1(c, r) // the selection is changed only by selectItem/deselectItem ...
